@@ -2,6 +2,7 @@
 import fscklib
 import seqlib
 import vlib
+from vlib import Break
 
 MODULE = "GoNfsd.Props.C04"
 
@@ -13,7 +14,23 @@ def run(ctx):
         t = ctx.tier == "thorough"
         sd = ["-seed", str(ctx.seed)]
         R = fscklib.C04_CHECKS
-        fscklib.run_images(ctx, ok_drv, "seq", ["seq"] + sd + (["-seqs", "24", "-ops", "400", "-big", "-fsck", "3"] if t else ["-seqs", "5", "-ops", "250", "-big", "-fsck", "5"]), R, True)
+        sl = fscklib.run_images(ctx, ok_drv, "seq", ["seq"] + sd + (["-seqs", "24", "-ops", "400", "-big", "-fsck", "3", "-locks"] if t else ["-seqs", "5", "-ops", "250", "-big", "-fsck", "5", "-locks"]), R, True)
+        # the journal caches every object a transaction has read for the transaction's lifetime; the copies are the disk's only while the locks
+        # that protect them are held: a transaction that goes on after giving its locks back (or after its abort) writes stale directory blocks
+        # and inodes over what others committed meanwhile.  Checked on every transaction of the run.
+        if sl is not None and ok_drv:
+            import conclib
+            try:
+                lm = [x for x in conclib.check_locks(ctx, sl, "C04", "sequential") if "two-phase" in x]
+                if lm:
+                    ctx.breaks.append(Break("correspondence", "recorded transactions are not two-phase (%d)" % len(lm), "\n".join(lm[:8])))
+                for x in lm[:2]:
+                    parts = x.split(" :: ")
+                    ctx.add_violation("not-two-phase:" + parts[1].split()[1], "a transaction takes a lock after it has given locks back (or after its abort): " + parts[-1][:200],
+                                      {"how": "lock/commit events of one request recorded by the fstxn hooks (harness seq -locks); the transaction's cached directory blocks and inodes "
+                                              "are stale once the lock was given back: entries committed by others meanwhile are overwritten", "trace": parts[-1]})
+            except Break as b:
+                ctx.breaks.append(b)
         fscklib.run_images(ctx, ok_drv, "conc", ["conc"] + sd + (["-hists", "40", "-clients", "5", "-ops", "150"] if t else ["-hists", "8", "-clients", "6", "-ops", "100", "-yield", "40"]), R, True)
         fscklib.run_images(ctx, ok_drv, "crash-meta", ["crash"] + sd + ["-mix", "meta"] + (["-workloads", "12", "-ops", "60", "-images", "800"] if t else ["-workloads", "2", "-ops", "40", "-images", "150"]), R, True)
         fscklib.run_images(ctx, ok_drv, "crash-free", ["crash"] + sd + ["-mix", "free", "-disk", "40000", "-ops", "22"] + (["-workloads", "6", "-images", "600"] if t else ["-workloads", "1", "-images", "120"]), R, True)
